@@ -22,10 +22,38 @@ Anything else, or an id out of range -> bad-op.  After a `panic` answer the obje
 import HvGraphAlg.Model.SubgraphMerge
 open HvGraphAlg
 
+/-! Driver-only: between two input lines the partial maps of the live object are stored as
+tables over the keys `< n` (the model represents maps as closures and every `set` adds a layer,
+which makes long cases slow).  `tableLookup (tabulate n m)` agrees with `m` on all keys `< n`,
+and no key `≥ n` is ever read or written. -/
+
+@[noinline] def tableLookup {α : Type} (arr : Array (Option α)) : SMap α :=
+  fun k => if h : k < arr.size then arr[k] else none
+
+@[noinline] def tabulate {α : Type} (n : Nat) (m : SMap α) : Array (Option α) :=
+  Array.ofFn (n := n) (fun i => m i.val)
+
+structure SMT where
+  n : Nat
+  preds : Array (Option (List Nat))
+  order : List Nat
+  sgIdx : Array (Option Nat)
+  sgLen : Array (Option Nat)
+  uf : Array (Option Nat)
+  enemies : Array (Option (List Nat))
+
+def SMT.toSM (t : SMT) : SM :=
+  { n := t.n, preds := tableLookup t.preds, order := t.order, sgIdx := tableLookup t.sgIdx,
+    sgLen := tableLookup t.sgLen, uf := tableLookup t.uf, enemies := tableLookup t.enemies }
+
+def SMT.ofSM (s : SM) : SMT :=
+  { n := s.n, preds := tabulate s.n s.preds, order := s.order, sgIdx := tabulate s.n s.sgIdx,
+    sgLen := tabulate s.n s.sgLen, uf := tabulate s.n s.uf, enemies := tabulate s.n s.enemies }
+
 inductive Obj
   | none
-  | uf (n : Nat) (l : Links)
-  | sm (s : SM)
+  | uf (n : Nat) (l : Array (Option Nat))
+  | sm (s : SMT)
 
 def parseList (s : String) : Option (List Nat) :=
   if s == "-" then some [] else (s.splitOn ",").mapM (fun p => p.toNat?)
@@ -82,33 +110,33 @@ def step (st : Obj) (line : String) : Obj × String :=
     | _, _ => (st, "bad-op")
   | ["uf", n] =>
     match n.toNat? with
-    | some n => (.uf n SMap.empty, "ok")
+    | some n => (.uf n (tabulate n SMap.empty), "ok")
     | none => (st, "bad-op")
   | ["union", a, b] =>
     match st, a.toNat?, b.toNat? with
     | .uf n l, some a, some b =>
-      if a < n && b < n then let r := ufUnion n l a b; (.uf n r.1, toString r.2) else (st, "bad-op")
+      if a < n && b < n then let r := ufUnion n (tableLookup l) a b; (.uf n (tabulate n r.1), toString r.2) else (st, "bad-op")
     | _, _, _ => (st, "bad-op")
   | ["find", a] =>
     match st, a.toNat? with
     | .uf n l, some a =>
-      if a < n then let r := findN n l a; (.uf n r.1, toString r.2) else (st, "bad-op")
+      if a < n then let r := findN n (tableLookup l) a; (.uf n (tabulate n r.1), toString r.2) else (st, "bad-op")
     | .sm s, some a =>
-      if a < s.n then let r := s.find a; (.sm r.1, toString r.2) else (st, "bad-op")
+      if a < s.n then let r := s.toSM.find a; (.sm (SMT.ofSM r.1), toString r.2) else (st, "bad-op")
     | _, _ => (st, "bad-op")
   | ["same", a, b] =>
     match st, a.toNat?, b.toNat? with
     | .uf n l, some a, some b =>
-      if a < n && b < n then let r := ufSame n l a b; (.uf n r.1, showBool r.2) else (st, "bad-op")
+      if a < n && b < n then let r := ufSame n (tableLookup l) a b; (.uf n (tabulate n r.1), showBool r.2) else (st, "bad-op")
     | .sm s, some a, some b =>
-      if a < s.n && b < s.n then let r := s.sameSet a b; (.sm r.1, showBool r.2) else (st, "bad-op")
+      if a < s.n && b < s.n then let r := s.toSM.sameSet a b; (.sm (SMT.ofSM r.1), showBool r.2) else (st, "bad-op")
     | _, _, _ => (st, "bad-op")
   | ["new", adj, en] =>
     match parseAdj adj, parsePairs en with
     | some adj, some en =>
       if adjOk adj && en.all (fun p => p.1 < adj.length && p.2 < adj.length) then
         match SM.new adj.length (adjFn adj) en with
-        | .ok sm => (.sm sm, s!"ok {showSubgraphs sm}")
+        | .ok sm => let t := SMT.ofSM sm; (.sm t, s!"ok {showSubgraphs t.toSM}")
         | .cyc c => (.none, s!"cyc {showL c}")
         | .panic => (.none, "panic")
         | .fuel => (.none, "fuel")
@@ -118,9 +146,9 @@ def step (st : Obj) (line : String) : Obj × String :=
     match st, a.toNat?, b.toNat? with
     | .sm s, some a, some b =>
       if a < s.n && b < s.n then
-        match s.tryMerge a b with
-        | (s', .merged) => (.sm s', s!"true {showSubgraphs s'}")
-        | (s', .refused) => (.sm s', s!"false {showSubgraphs s'}")
+        match s.toSM.tryMerge a b with
+        | (s', .merged) => let t := SMT.ofSM s'; (.sm t, s!"true {showSubgraphs t.toSM}")
+        | (s', .refused) => let t := SMT.ofSM s'; (.sm t, s!"false {showSubgraphs t.toSM}")
         | (_, .bug) => (.none, "panic")
       else (st, "bad-op")
     | _, _, _ => (st, "bad-op")
